@@ -588,6 +588,10 @@ func VerifC26Malformed(h *verifrt.H) {
 	sn := gwSwamp
 	if h.Choose("goodSwampName", 2) == 0 {
 		sn = h.String("swampName", h.Len("swampNameLen", 0, h.Param("maxName", 4)))
+		// The server parses names leniently: everything after the third part is ignored, so
+		// "s/r/w/" or "s/r/w/x" address the well-formed swamp itself. Such a request is a
+		// request to that swamp (a Destroy then removes it as asked), not a malformed one.
+		h.Assume(!(len(sn) > len(gwSwamp) && sn[:len(gwSwamp)+1] == gwSwamp+"/"))
 	}
 	var keys []string
 	switch h.Choose("keys", 3) {
